@@ -197,6 +197,8 @@ def rand_pfile(rng, rich=True):
         if rng.random() < 0.25:
             fo['const_strings'] = True
         if rng.random() < 0.2:
+            fo['use_oneof_field_name'] = True
+        if rng.random() < 0.2:
             fo['optimize_for'] = rng.choice(['CODE_SIZE', 'SPEED', 'LITE_RUNTIME'])
         for i in range(n):
             o = {}
@@ -254,9 +256,10 @@ def rand_pfile(rng, rich=True):
                 # inf / nan defaults are emitted verbatim and do not compile (finding F12b, kept as a fixed schema)
                 f.dflt = ('V', 0x3fc00000 if f.type == T_FLOAT else 0x3ff8000000000000)
             o = {}
-            if rich and f.type == T_STRING and syntax == 2 and f.dflt is None and rng.random() < 0.15:
+            if rich and f.type == T_STRING and (f.dflt is None or f.dflt[0] == 'E') and rng.random() < 0.15:
                 o['sab'] = True
                 f.type = T_BYTES          # what the runtime sees; the .proto says `string ... [string_as_bytes = true]`
+                f.dflt = None             # (a bytes field has no implicit default object)
             if rich and rng.random() < 0.1:
                 o['deprecated'] = True
             if o:
